@@ -21,6 +21,7 @@ type Clause struct {
 	Loop  int    // for invariant/decreases: loop ordinal (1-based)
 	Label string // optional label
 	Text  string // expression text (spec syntax)
+	Callee string // assert clauses: name of the callee before whose calls the assertion is placed
 	File  string
 	Line  int
 	// filled by overlay generation
@@ -158,7 +159,7 @@ func parseContracts(dir string, tags string) (*Contracts, error) {
 					cl.Kind, cl.Loop = k, n
 					rest = strings.TrimSpace(strings.TrimPrefix(strings.TrimSpace(strings.TrimPrefix(rest, fs[0])), k))
 				}
-				if m := reLabel.FindStringSubmatch(rest); m != nil && !strings.HasPrefix(rest, "forall") {
+				if m := reLabel.FindStringSubmatch(rest); m != nil && !strings.HasPrefix(rest, "forall") && first != "assert" {
 					cl.Label = m[1]
 					rest = rest[len(m[0]):]
 				}
